@@ -282,6 +282,57 @@ pub fn run() {
                     })));
                     "ok".into()
                 }
+                ["sumburst", n] => {
+                    // n tasks report one identical denial each to the real status actor, all at once (what n request handlers do)
+                    let n: usize = n.parse().unwrap();
+                    let mut hs = vec![];
+                    for i in 0..n {
+                        let st2 = st.clone();
+                        hs.push(tokio::spawn(async move {
+                            let mk = || crate::proxy::proxy_summary::ProxySummary {
+                                id: i as u128,
+                                method: "GET".into(),
+                                url: "/metadata/instance".into(),
+                                clientIp: "127.0.0.1".into(),
+                                clientPort: 1,
+                                ip: "169.254.169.254".into(),
+                                port: 80,
+                                userId: 1000,
+                                userName: "burst-user".into(),
+                                userGroups: vec![],
+                                processFullPath: std::path::PathBuf::from("/bin/burst"),
+                                processCmdLine: "burst".into(),
+                                runAsElevated: false,
+                                responseStatus: "403 Forbidden".into(),
+                                elapsedTime: 0,
+                                errorDetails: String::new(),
+                            };
+                            let _ = st2.add_one_failed_connection_summary(mk()).await;
+                            let _ = st2.add_one_connection_summary(mk()).await;
+                        }));
+                    }
+                    for h in hs {
+                        let _ = h.await;
+                    }
+                    let count = |v: Vec<proxy_agent_shared::proxy_agent_aggregate_status::ProxyConnectionSummary>| -> u64 {
+                        v.iter().filter(|s| s.userName == "burst-user").map(|s| s.count).sum()
+                    };
+                    format!(
+                        "{} {}",
+                        st.get_all_failed_connection_summary().await.map(count).unwrap_or(0),
+                        st.get_all_connection_summary().await.map(count).unwrap_or(0)
+                    )
+                }
+                ["shook", us] => {
+                    // a schedule in which the status actor is a slow consumer of connection summaries: each takes `us` microseconds longer
+                    let us: u64 = us.parse().unwrap();
+                    crate::shared_state::verif_actor::set_hook(Some(Box::new(move |actor, kind| {
+                        if actor == "agent_status" && kind != "other" {
+                            std::thread::sleep(std::time::Duration::from_micros(us));
+                        }
+                    })));
+                    "ok".into()
+                }
                 ["phook", ms] => {
                     // a schedule in which the provision actor is slow: every message it handles takes `ms` milliseconds longer
                     let ms: u64 = ms.parse().unwrap();
